@@ -364,6 +364,9 @@ def _job(args):
             np.random.seed(seed % (2 ** 31))
         out = fn(*a_call, **kw_call)
     attr = jn.split(".")[-1] if jn.split(".")[0][0].isupper() else jn
+    if styled is None and attr not in J.INPLACE_BY_DESIGN and jn not in J.INPLACE_BY_DESIGN and "Hess_QR" not in jn:
+        # the contract is about the matrix the CALLER holds: judge against the argument objects as they are after the call
+        pre = tuple(a)
     if name.endswith("@df"):
         try:
             recs = jf(attr if attr in ("compute", "solve") else jn, fn, pre, kw, out)
